@@ -256,6 +256,12 @@ def run(tier, seed, replay=None):
 
         replay_case(chk, replay, ["C07"])
         return chk.finish()
+    chk.assumptions = [
+        "the absolute path of the project root contains no ':' -- COND_DEPS joins the directories with ':' (config.DEPS_ENV_PATH_SEPARATOR) and "
+        "get_deps_paths() splits at every ':', so a root such as /data/a:b makes the library report more, shorter paths than were listed; task, package "
+        "and version names cannot contain ':', so only the root can introduce one; the property quantifies over graphs, task kinds, nesting, args/options "
+        "and cache states, not over root paths (Props/C07.v states the round trip under exactly this side condition)",
+    ]
     chk.coverage["rule"] = ("(a) scheduling cases (corpus, diamonds in both listing orders, seeded random DAGs over four task kinds in nested packages, cached experiments, --again, "
                             "jobs 1-4): every spawn's argv/cwd/env checked, dependency snapshot compared with the planner model; (b) generated run/args/options: command line vs "
                             "Model/Env.v and an independent rendering; (c) support library under generated COND_DEPS/COND_OUT; (d) real bash children report what they receive; "
